@@ -315,6 +315,29 @@ def build_state(gen, model, pre, roots, world):
     return inputs
 
 
+def mentions_havoc(term, limit=4000):
+    """does the term contain a symbol introduced by a modular call (havocked location / abstract result)?"""
+    seen = set()
+    work = [term]
+    n = 0
+    while work:
+        t = work.pop()
+        i = t.get_id()
+        if i in seen:
+            continue
+        seen.add(i)
+        n += 1
+        if n > limit:
+            return True
+        if z3.is_const(t) and t.decl().kind() == z3.Z3_OP_UNINTERPRETED:
+            nm = t.decl().name()
+            if ".havoc!" in nm or ".result" in nm or nm.startswith("busbyte"):
+                return True
+        else:
+            work.extend(t.children())
+    return False
+
+
 def predicted_leaves(model, post, oid, tid, p, prefix, out, val=None):
     """engine's post-state under the model as {dump-path: value}"""
     if val is None:
@@ -322,6 +345,8 @@ def predicted_leaves(model, post, oid, tid, p, prefix, out, val=None):
 
     def walk(v, t, pre):
         if is_z3(v):
+            if mentions_havoc(v):
+                return   # value left open by a callee's contract (havoc): the real callee picks one value, nothing to compare
             out[pre] = mval(model, v)
         elif isinstance(v, StructV):
             for i, (it, f) in enumerate(zip(v.items, p.struct_fields(t))):
@@ -415,6 +440,14 @@ def replay(ctx, prop, ob, res):
             x = mval(model, a)
             inputs[prm["name"]] = x
             argexprs.append(go_scalar(gen, prm["t"], x))
+        elif isinstance(a, Closure) and a.fn == "ext:read":
+            # abstract bus function: answers with the bytes the model chose for the addresses that were read
+            bus = {}
+            for ev in (ob.state.trace if ob.state is not None else ()):
+                if ev[0] == "dmaread":
+                    bus[mval(model, ev[1])] = mval(model, ev[2])
+            inputs["bus"] = {"0x%04x" % k: v for k, v in bus.items()}
+            argexprs.append("func(a uint16) uint8 { return map[uint16]uint8{%s}[a] }" % ", ".join("0x%04x: 0x%02x" % kv for kv in sorted(bus.items())))
         else:
             return {"status": "unconfirmed", "reason": "argument %s of kind %s" % (prm["name"], type(a).__name__)}
     try:
